@@ -495,6 +495,8 @@ impl Heap {
     ///   free list.
     /// * State::Used - Mark the vcell as allocated.
     pub fn sweep(&mut self) {
+        #[cfg(feature = "verif")]
+        crate::vm::verif::clear_force_gc();
         let before = self.free_list.len();
         for it in 0..self.heap.len() {
             match self.heap_map.get(it) {
@@ -528,6 +530,10 @@ impl Heap {
     ///
     /// The number of nodes in used.
     pub fn used_size(&self) -> usize {
+        #[cfg(feature = "verif")]
+        if crate::vm::verif::force_gc() {
+            return self.capacity();
+        }
         self.capacity() - self.free_size()
     }
 
@@ -547,6 +553,22 @@ impl Heap {
                 self.heap.get(it).unwrap_or(&VCell::Undefined)
             );
         }
+    }
+}
+
+#[cfg(feature = "verif")]
+impl Heap {
+    /// Collector state of cell `index` (None if out of bounds).
+    pub fn verif_state(&self, index: usize) -> Option<State> {
+        self.heap_map.get(index)
+    }
+
+    pub fn verif_free_list(&self) -> &[usize] {
+        &self.free_list
+    }
+
+    pub fn verif_symbol_table(&self) -> &HashMap<String, usize> {
+        &self.symbol_table
     }
 }
 
